@@ -16,7 +16,7 @@ RULE = ("real Router with recording devices (one of them a real generated Driver
         "closure computed by the model whatever the router's iteration order). This check judges device-originated messages (and the "
         "getProperties relay): exactly-once to every registered client other than the sender whose policy for that device admits the "
         "kind (Never: everything but setBLOBVector, Also: everything, Only: setBLOBVector only), none to others; additionally the "
-        "library's own clients' handshakes are observed on the wire. non-trivial = every compared operation; "
+        "library's own clients' handshakes are observed on the wire. Separately, an enableBLOB that names no policy or an unknown word - built in eight ways, constructor and XML - is sent by one of three clients with random earlier settings: every client's delivery pattern (plain, BLOB) is probed before and after and must stay one of the three, unchanged for everybody but the sender's own device (where the default is accepted too); and a third universe of device names differing in padding or case only. non-trivial = every compared operation; "
         "distinct = hash(model state [and path, when reached by a non-shortest path], operation)")
 ASSUMPTIONS = ["which devices a client-originated message reaches is decided by C04",
                "enableBLOB from an unregistered sender is outside the quantifier"]
